@@ -23,7 +23,7 @@ META = {
     "'executing' = lock file held between the body's start and end log lines; the pool of the controlled worker has k+1 "
     "processes so that an overstepping dispatcher shows up as an extra open body.",
     "rule": "case = (independent / chained / mixed jobs <= 10, k in 1..n, recorded schedule); distinct by canonical JSON; "
-    "non-trivial = >= 3 jobs, k < number of jobs, schedule policy other than FIFO",
+    "non-trivial = >= 3 jobs and a schedule policy other than FIFO completion",
     "assumptions": ["a poll (get_runnable_tasks) is atomic with respect to changes on disk"],
     "trusted": ["model of Submitter.expand_workflow_async dispatch written by hand (Sched/Model.lean)"],
 }
@@ -84,8 +84,9 @@ CORPUS = sched.load_corpus("C16")
 
 def correspondence(ctx):
     core.assert_repo_loaded()
-    sched.explore(ctx, [dict(c) for c in CORPUS], spec, "C16 corpus (D11 witness)")
-    res = sched.explore(ctx, gen_cases(ctx.rng, ctx.pick(14, 220), ctx.pick(6, 10)), spec, "C16 concurrency limit")
+    # corpus (D11 witness) first, then generated cases, in one batch
+    res = sched.explore(ctx, [dict(c) for c in CORPUS] + gen_cases(ctx.rng, ctx.pick(14, 140), ctx.pick(6, 10)), spec,
+                        "C16 concurrency limit")
     ctx.extra["max_open_seen"] = max([o.get("maxopen") or 0 for (_, o, _, _, _) in res] + [0])
     ctx.extra["cases_at_limit"] = sum(1 for (c, o, _, _, _) in res if c.get("k") is not None and o.get("maxopen") == c["k"])
 
